@@ -115,3 +115,85 @@ Proof.
   rewrite <- total_is_requests by (intros v Hv; apply in_map_iff in Hv as (x & <- & Hx); exact (H x Hx)).
   rewrite n_wrotes_flat by exact T. lia.
 Qed.
+
+(* ---- any number of connections at once ----
+   The registry sees ONE stream of events in which the events of concurrent connections are interleaved in whatever
+   order the scheduler produced.  Both series are sums over the events, so they depend on the multiset of events only:
+   for ANY permutation of the events of ANY set of connections (TCP server or http.Handler variant each, any list of
+   exchanges each, with the final failed read of a kept connection) the gauge is zero for every label and the counter
+   equals the number of requests read. *)
+From Coq Require Import Permutation.
+
+Definition conn_events (c : bool * list ex) : list tev := conn_view (fst c) (conn_trace (snd c)).
+
+Lemma tdelta_perm l a c : Permutation a c -> tdelta l a = tdelta l c.
+Proof. induction 1; cbn [tdelta]; lia. Qed.
+
+Lemma perm_filter {A} (f : A -> bool) a c : Permutation a c -> Permutation (filter f a) (filter f c).
+Proof.
+  induction 1; cbn [filter].
+  - constructor.
+  - destruct (f x); [constructor|]; assumption.
+  - destruct (f x), (f y); first [apply perm_swap | apply Permutation_refl].
+  - eapply Permutation_trans; eassumption.
+Qed.
+
+Lemma n_wrotes_perm a c : Permutation a c -> n_wrotes a = n_wrotes c.
+Proof. unfold n_wrotes. intro H. f_equal. apply Permutation_length, perm_filter, H. Qed.
+
+Lemma tdelta_view l h tr : tdelta l (conn_view h tr) = tdelta l tr.
+Proof.
+  destruct h; [|reflexivity]. unfold conn_view.
+  induction tr as [|e r IH]; [reflexivity|]. cbn [filter tdelta].
+  destruct (t_read e) eqn:R, (t_hasreq e) eqn:Q; cbn [negb orb tdelta]; rewrite ?R, ?Q, IH; lia.
+Qed.
+
+Lemma n_wrotes_view h tr : n_wrotes (conn_view h tr) = n_wrotes tr.
+Proof.
+  destruct h; [|reflexivity]. unfold conn_view, n_wrotes. f_equal. f_equal.
+  induction tr as [|e r IH]; [reflexivity|]. cbn [filter].
+  destruct (t_read e) eqn:R, (t_hasreq e) eqn:Q; cbn [negb orb filter]; rewrite ?R; cbn [negb]; rewrite IH; reflexivity.
+Qed.
+
+Lemma tdelta_conn_trace l xs : tdelta l (conn_trace xs) = tdelta l (flat_map trace_of xs).
+Proof. unfold conn_trace. rewrite tdelta_app. destruct (last_keeps xs); cbn; lia. Qed.
+
+Lemma n_wrotes_conn_trace xs : n_wrotes (conn_trace xs) = n_wrotes (flat_map trace_of xs).
+Proof. unfold conn_trace. rewrite n_wrotes_app. destruct (last_keeps xs); cbn; lia. Qed.
+
+Lemma tdelta_zero xs l : table_flags = good_flags -> exs_ok xs -> tdelta l (flat_map trace_of xs) = 0.
+Proof.
+  intros T H. rewrite tdelta_flat by exact T. apply gauge_zero_seq.
+  intros y Hy. apply in_map_iff in Hy as (x & <- & Hx). exact (H x Hx).
+Qed.
+
+Lemma gauge_zero_concurrent conns tr l :
+  table_flags = good_flags -> trace_read_guards_nil_req = true ->
+  (forall c, In c conns -> exs_ok (snd c)) ->
+  Permutation tr (flat_map conn_events conns) ->
+  gauge_get l (prom_inflight tr []) = 0.
+Proof.
+  intros T G H P. rewrite prom_inflight_get by exact G. cbn [gauge_get]. rewrite (tdelta_perm l _ _ P).
+  clear P. induction conns as [|c r IH]; [reflexivity|].
+  cbn [flat_map]. rewrite tdelta_app. unfold conn_events at 1. rewrite tdelta_view, tdelta_conn_trace.
+  rewrite tdelta_zero; [|exact T|apply H; left; reflexivity].
+  rewrite Z.add_0_l in IH |- *. apply IH. intros c' Hc. apply H. right. exact Hc.
+Qed.
+
+Lemma total_concurrent conns tr :
+  table_flags = good_flags ->
+  (forall c, In c conns -> exs_ok (snd c)) ->
+  Permutation tr (flat_map conn_events conns) ->
+  zsum (prom_total tr []) = Z.of_nat (seq_requests (map x_val (flat_map snd conns))).
+Proof.
+  intros T H P. rewrite prom_total_sum. cbn [zsum fold_right]. rewrite (n_wrotes_perm _ _ P). clear P.
+  assert (E : n_wrotes (flat_map conn_events conns) = n_wrotes (flat_map trace_of (flat_map snd conns))).
+  { induction conns as [|c r IH]; [reflexivity|].
+    cbn [flat_map]. rewrite flat_map_app, !n_wrotes_app. unfold conn_events at 1.
+    rewrite n_wrotes_view, n_wrotes_conn_trace, IH; [reflexivity|].
+    intros c' Hc. apply H. right. exact Hc. }
+  rewrite E, Z.add_0_l.
+  assert (K : exs_ok (flat_map snd conns)).
+  { intros x Hx. apply in_flat_map in Hx as (c & Hc & Hx). exact (H c Hc x Hx). }
+  pose proof (total_counts_requests _ T K) as Q. rewrite prom_total_sum in Q. cbn [zsum fold_right] in Q. lia.
+Qed.
